@@ -20,10 +20,10 @@ impl Check for C29 {
         tier.pick(2400, 100_000)
     }
     fn rule(&self) -> String {
-        "case = a seeded multi-replica history; on one replica a head set H from its own history (strictly historical in most cases, incl. heads of concurrent branches) is chosen and either AutoCommit::isolate(H) or Automerge::transaction_at(H) is entered. Checked: (1) the reads under isolation equal fork_at(H) and REF(ancestors(H)); (2) 4–15 model-checked calls (SEQ seeded from the isolated view) have their documented effect on that view; (3) the committed changes depend only on H and the isolated chain, and leave the non-isolated changes untouched; (4) after integrate() the document equals the independent interpretation of all its changes and equals a clone taken before isolation to which the isolated changes were applied. Non-trivial = H strictly historical and later changes touch the same objects; distinct by (history, H, edits).".into()
+        "case = a seeded multi-replica history; on one replica a head set H from its own history (strictly historical in most cases, incl. heads of concurrent branches) is chosen and either AutoCommit::isolate(H) or Automerge::transaction_at(H) is entered. Checked: (1) the reads under isolation equal fork_at(H) and REF(ancestors(H)); (2) 4–15 model-checked calls (SEQ seeded from the isolated view) have their documented effect on that view; (3) the committed changes depend only on H and the isolated chain, leave the non-isolated changes untouched, and are accepted (no error, no panic, no missing dependency, heads = last isolated change) by a document holding exactly ancestors(H), i.e. their ops reference nothing outside the scope; (4) after integrate() the document equals the independent interpretation of all its changes and equals a clone taken before isolation to which the isolated changes were applied. Non-trivial = H strictly historical and later changes touch the same objects; distinct by (history, H, edits).".into()
     }
     fn required_counters(&self) -> Vec<&'static str> {
-        vec!["isolations", "strictly_historical", "variant_autocommit_isolate", "variant_transaction_at", "effects_compared", "isolated_changes_checked", "integrations_compared", "planted_conflicted_counter_scenarios"]
+        vec!["isolations", "strictly_historical", "variant_autocommit_isolate", "variant_transaction_at", "effects_compared", "isolated_changes_checked", "integrations_compared", "planted_conflicted_counter_scenarios", "applied_to_scope_only_document"]
     }
     fn run_case(&self, cx: &mut Ctx, case: u64, rng: &mut Rng) {
         let enc = enc_for(rng);
@@ -189,6 +189,35 @@ impl Check for C29 {
                 return;
             }
             chain.insert(c.hash());
+        }
+        // (3b) the isolated changes reference nothing outside ancestors(H): a document holding exactly
+        // ancestors(H) accepts them and is left with no missing dependency
+        if let Ok(mut scoped) = before_clone.clone().fork_at(&h) {
+            cx.count("applied_to_scope_only_document");
+            match catch(|| scoped.apply_changes(sorted.iter().cloned())) {
+                Ok(Ok(())) => {
+                    if !scoped.get_missing_deps(&[]).is_empty() {
+                        cx.violation("isolated-change-depends-outside", "after applying the isolated changes to fork_at(H) the document reports missing dependencies", detail(String::new()));
+                        return;
+                    }
+                    let mut hs = scoped.get_heads();
+                    hs.sort();
+                    let mut want: Vec<ChangeHash> = sorted.last().map(|c| vec![c.hash()]).unwrap_or_else(|| h.clone());
+                    want.sort();
+                    if !sorted.is_empty() && hs != want {
+                        cx.violation("isolated-change-depends-outside", format!("fork_at(H) + isolated changes has heads {:?} instead of the last isolated change", hash_hex(&hs)), detail(String::new()));
+                        return;
+                    }
+                }
+                Ok(Err(e)) => {
+                    cx.violation("isolated-changes-reference-outside-scope", format!("a document holding exactly ancestors(H) rejects the isolated changes: {e}"), detail(String::new()));
+                    return;
+                }
+                Err(p) => {
+                    cx.violation("isolated-changes-reference-outside-scope", format!("a document holding exactly ancestors(H) panics when the isolated changes are applied: {p}"), detail(String::new()));
+                    return;
+                }
+            }
         }
         // (4) after integrate: interpretation of all changes, and merge equivalence
         cx.count("integrations_compared");
